@@ -9,7 +9,7 @@ From RU Require Import Base.Prelude Base.Utf8 Base.Utf8Facts Model.AsciiSet Gen.
   Model.HostT Model.UrlRecord Model.Parser Model.Setters Model.WF Model.KnownC01 Model.KnownC07 Spec.Whatwg
   Proofs.ListN Proofs.C03_WF Proofs.C06_List Proofs.C06_WFI Proofs.C06_Tail Proofs.C06_Suffix Proofs.C06_Front
   Proofs.C06_Steps Proofs.C06_FragQuery Proofs.C06_Path Proofs.C02_Parts Proofs.C08_Input
-  Proofs.C01_EqRun Proofs.C01_EqPathSpec Proofs.C01_EqPath Proofs.C01_EqSpSpec Proofs.C01_EqSpPath
+  Proofs.C01_Tables Proofs.C01_EqRun Proofs.C01_EqPathSpec Proofs.C01_EqPath Proofs.C01_EqSpSpec Proofs.C01_EqSpPath
   Proofs.C07_Defs Proofs.C07_Corr Proofs.C07_SpecRun Proofs.C07_SpecProto Proofs.C07_EqProto Proofs.C07_EqSix
   Proofs.C07_SpecPath Proofs.C07_PathText Proofs.C07_PathKnown.
 
@@ -96,4 +96,188 @@ Proof.
   f_equal. unfold with_path. fold pe ps. rewrite nlen_app, Ls0. rewrite <- app_assoc. reflexivity.
 Qed.
 
+
+(* ---------- the value against the two path start states ---------- *)
+Lemma spathO_nil_sp : spathO true [] [] [] = [[]].
+Proof. vm_compute. reflexivity. Qed.
+
+Lemma set_path_nil_same u0 : su_path u0 = SPList [] -> Whatwg.set_path u0 (SPList []) = u0.
+Proof. destruct u0; cbn; intros ->; reflexivity. Qed.
+
+Lemma path_text_ns s0 u0 v hh : usv_list v -> su_path u0 = SPList [] -> is_special u0 = false ->
+  host_is_null (su_host u0) = false ->
+  has_drive_segment (ntnl v) && has_dotdot (ntnl v) = false ->
+  (match ntnl v with [] => true | _ => false end) && (negb (match v with [] => true | _ => false end) || negb hh) = false ->
+  (match v with c :: _ => is_tnl c | [] => false end) && starts_with_byte 47 (ntnl v) = false ->
+  exists segs rem,
+    parse_path_start dbg CSetter STNotSpecial true s0 (path_arg false hh v)
+    = POk (s0 ++ flat_map (fun s => 47 :: s) segs, true, rem)
+    /\ pstartO u0 (ntnl v) = Whatwg.set_path u0 (SPList segs)
+    /\ forallb C06_WFI.no_qh (flat_map (fun s => 47 :: s) segs) = true.
+Proof.
+  intros Hu HP Hsp Hnull K1 K5 K9. destruct v as [|c r].
+  - cbn [ntnl filter andb negb orb] in K5. destruct hh; [|discriminate K5].
+    exists [], []. unfold path_arg. cbn [orb negb flat_map]. rewrite app_nil_r.
+    split; [apply pps_setter_empty_ns; [constructor | reflexivity]|].
+    split; [|reflexivity]. unfold pstartO. rewrite Hsp, Hnull. cbn [ntnl filter]. symmetry. exact (set_path_nil_same u0 HP).
+  - unfold path_arg. cbn [andb]. rewrite orb_false_r. destruct (c =? 47) eqn:E47.
+    + apply N.eqb_eq in E47. subst c. rewrite (ntnl_cons 47 r eq_refl) in *.
+      destruct (pps_setter_exact_ns dbg s0 (47 :: r) r true Hu (inp_next_cons 47 r eq_refl)
+                  (known1_okO_tail false 47 (ntnl r) eq_refl K1)) as [rem E].
+      exists (spathO false (ntnl r) [] []), rem. split; [exact E|]. split; [|apply spathO_flat_no_qh].
+      unfold pstartO. rewrite Hsp. reflexivity.
+    + assert (usv_list (47 :: c :: r)) as Hu' by (apply usv_cons; split; [left; lia | exact Hu]).
+      destruct (pps_setter_exact_ns dbg s0 (47 :: c :: r) (c :: r) true Hu' (inp_next_cons 47 (c :: r) eq_refl)
+                  (known1_okO false (ntnl (c :: r)) K1)) as [rem E].
+      exists (spathO false (ntnl (c :: r)) [] []), rem. split; [exact E|]. split; [|apply spathO_flat_no_qh].
+      unfold pstartO. rewrite Hsp. cbn iota in K9.
+      destruct (is_tnl c) eqn:Et.
+      * destruct (ntnl (c :: r)) as [|d t'] eqn:Ent.
+        -- cbn [andb negb orb] in K5. discriminate K5.
+        -- cbn [starts_with_byte andb] in K9. rewrite K9. reflexivity.
+      * rewrite (ntnl_cons c r Et). rewrite E47. reflexivity.
+Qed.
+
+Lemma path_text_sp s0 u0 v hh : usv_list v -> su_path u0 = SPList [] -> is_special u0 = true ->
+  has_drive_segment (ntnl v) && has_dotdot (ntnl v) = false ->
+  (match v with c :: _ => is_tnl c | [] => false end) && (starts_with_byte 47 (ntnl v) || starts_with_byte 92 (ntnl v)) = false ->
+  exists segs rem,
+    parse_path_start dbg CSetter STSpecialNotFile true s0 (path_arg true hh v)
+    = POk (s0 ++ flat_map (fun s => 47 :: s) segs, true, rem)
+    /\ pstartO u0 (ntnl v) = Whatwg.set_path u0 (SPList segs)
+    /\ forallb C06_WFI.no_qh (flat_map (fun s => 47 :: s) segs) = true.
+Proof.
+  intros Hu HP Hsp K1 K9.
+  assert (usv_list (47 :: v)) as Hu' by (apply usv_cons; split; [left; lia | exact Hu]).
+  destruct v as [|c r].
+  - unfold path_arg. cbn [orb].
+    destruct (pps_setter_exact_sp dbg s0 47 [] true Hu' eq_refl (known1_okO true [] eq_refl)) as [rem E].
+    exists (spathO true (ntnl []) [] []), rem. split; [exact E|]. split; [|apply spathO_flat_no_qh].
+    unfold pstartO. rewrite Hsp. cbn [ntnl filter]. rewrite spathO_nil_sp. reflexivity.
+  - unfold path_arg. cbn [andb]. change ((c =? 47) || (c =? 92)) with (is_sl c). destruct (is_sl c) eqn:Esl.
+    + assert (is_tnl c = false) as Et by (unfold is_sl in Esl; unfold is_tnl; lia).
+      rewrite (ntnl_cons c r Et) in *.
+      destruct (pps_setter_exact_sp dbg s0 c r true Hu Esl (known1_okO_tail true c (ntnl r) Esl K1)) as [rem E].
+      exists (spathO true (ntnl r) [] []), rem. split; [exact E|]. split; [|apply spathO_flat_no_qh].
+      unfold pstartO. rewrite Hsp, sepc_true, Esl. reflexivity.
+    + destruct (pps_setter_exact_sp dbg s0 47 (c :: r) true Hu' eq_refl (known1_okO true (ntnl (c :: r)) K1)) as [rem E].
+      exists (spathO true (ntnl (c :: r)) [] []), rem. split; [exact E|]. split; [|apply spathO_flat_no_qh].
+      unfold pstartO. rewrite Hsp. cbn iota in K9.
+      destruct (is_tnl c) eqn:Et.
+      * destruct (ntnl (c :: r)) as [|d t'] eqn:Ent; [rewrite spathO_nil_sp; reflexivity|].
+        cbn [starts_with_byte andb] in K9. rewrite sepc_true. unfold is_sl. rewrite K9. reflexivity.
+      * rewrite (ntnl_cons c r Et). rewrite sepc_true, Esl. reflexivity.
+Qed.
+
 End Pathname.
+
+(* ---------- the records ---------- *)
+Section Records.
+Variable dbg : bool.
+Variable hp ho : list N -> result host.
+Variable hd : host -> list N.
+Variable shp : bool -> list N -> option spec_host.
+Variable shs : spec_host -> list N.
+
+Lemma sane_set_path su segs : sane su -> sane (Whatwg.set_path su (SPList segs)).
+Proof. intros [A B C]. constructor; [exact A | exact B | intros H; discriminate H]. Qed.
+
+Lemma corr_with_path u su segs : corr dbg shs u su -> has_authority_b u = true ->
+  forallb C06_WFI.no_qh (flat_map (fun s => 47 :: s) segs) = true ->
+  corr dbg shs (with_path u (flat_map (fun s => 47 :: s) segs)) (Whatwg.set_path su (SPList segs)).
+Proof.
+  intros C Ha HQ. pose proof (co_wf _ _ _ _ C) as W.
+  set (P := flat_map (fun s => 47 :: s) segs) in *.
+  assert (P = [] \/ exists r, P = 47 :: r) as HP2 by (unfold P; destruct segs; [left | right; eexists]; reflexivity).
+  pose proof (wp_wf u P W Ha HQ HP2) as W'.
+  destruct (wp_front dbg u P W Ha HQ HP2) as (F1 & F2 & F3 & F4 & F5).
+  pose proof (wp_has_authority u P W Ha) as Ha'.
+  constructor.
+  - exact W'.
+  - exact (wp_host_text_ok u P W Ha HP2 (co_ht _ _ _ _ C)).
+  - rewrite F1. exact (co_scheme _ _ _ _ C).
+  - rewrite F2. exact (co_user _ _ _ _ C).
+  - rewrite F3. exact (co_pass _ _ _ _ C).
+  - rewrite F4. exact (co_host _ _ _ _ C).
+  - exact (co_hh _ _ _ _ C).
+  - rewrite Ha', <- Ha. exact (co_auth _ _ _ _ C).
+  - rewrite Ha', <- Ha. exact (co_at _ _ _ _ C).
+  - rewrite F5. exact (co_port _ _ _ _ C).
+  - exact (wp_path u P W Ha HQ HP2).
+  - rewrite (wp_query dbg u P W Ha HQ HP2). exact (co_query _ _ _ _ C).
+  - rewrite (wp_fragment dbg u P W Ha HQ HP2). exact (co_frag _ _ _ _ C).
+  - rewrite Ha'. cbn [negb andb]. unfold spec_marker. cbn [su_host Whatwg.set_path].
+    pose proof (co_auth _ _ _ _ C) as K. rewrite Ha in K. destruct (su_host su); [reflexivity | discriminate K].
+  - rewrite (is_opaque_by_path _ P W' (wp_path u P W Ha HQ HP2)), Ha'. reflexivity.
+  - exact (co_uclean _ _ _ _ C).
+Qed.
+
+(* an opaque path: the assignment is ignored on both sides *)
+Theorem pathname_step_opaque u su v : corrS dbg shs u su -> has_opaque_path su = true ->
+  exists u' su', model_set dbg hp ho hd QPathname u v = Some u' /\ spec_step shp QPathname su v = Some su'
+    /\ corrS dbg shs u' su'.
+Proof.
+  intros [C S] Hop. pose proof (co_wf _ _ _ _ C) as W.
+  pose proof (cannot_be_a_base_eval u W) as Ecb.
+  change (negb (byte_eqb (ser u) (scheme_end u + 1) 47)) with (is_opaque_b u) in Ecb.
+  rewrite (co_opaque _ _ _ _ C), Hop in Ecb.
+  exists u, su. cbn [model_set]. unfold q_set_pathname. rewrite Ecb. cbn [bindo].
+  unfold spec_step. cbn [setter_of_q]. rewrite (spec_pathname_opaque shp su v Hop).
+  split; [reflexivity|]. split; [reflexivity | split; assumption].
+Qed.
+
+(* an authority: the Standard's pathname setter, outside classes 1, 3, 4, 5, 9 of Known_C07 *)
+Theorem pathname_step_auth u su v : corrS dbg shs u su -> usv_list v -> known_c07 u QPathname v = 0 ->
+  has_authority_b u = true ->
+  exists u' su', model_set dbg hp ho hd QPathname u v = Some u' /\ spec_step shp QPathname su v = Some su'
+    /\ corrS dbg shs u' su'.
+Proof.
+  intros [C S] Hv Hk Ha. pose proof (co_wf _ _ _ _ C) as W.
+  assert (byte_eqb (ser u) (scheme_end u + 1) 47 = true) as Hsl.
+  { pose proof Ha as Ha2. unfold has_authority_b in Ha2. apply css_bytes in Ha2. destruct Ha2 as (_ & C1 & _).
+    apply byte_eqb_true_iff. exact C1. }
+  pose proof (cannot_be_a_base_eval u W) as Ecb. rewrite Hsl in Ecb. cbn [negb] in Ecb.
+  assert (has_opaque_path su = false) as Hop.
+  { rewrite <- (co_opaque _ _ _ _ C). unfold is_opaque_b. rewrite Hsl. reflexivity. }
+  unfold known_c07, u_cbb, u_scheme_or_empty, u_path_or_empty, u_has_authority in Hk.
+  rewrite Ecb, (co_scheme _ _ _ _ C), (co_path _ _ _ _ C), (has_authority_eval false u W), Ha in Hk.
+  destruct (list_eqb (su_scheme su) s_file) eqn:Ef; [discriminate Hk|].
+  match type of Hk with (if ?b then _ else _) = _ => destruct b eqn:E3; [discriminate Hk|] end.
+  match type of Hk with (if ?b then _ else _) = _ => destruct b eqn:K1; [discriminate Hk|] end.
+  match type of Hk with (if ?b then _ else _) = _ => destruct b eqn:K5; [discriminate Hk|] end.
+  match type of Hk with (if ?b then _ else _) = _ => destruct b eqn:K9; [discriminate Hk|] end.
+  clear Hk E3. change (no_tnl v) with (ntnl v) in *. change s_file with str_file in Ef.
+  pose proof (special_schemes_are_the_standards (su_scheme su)) as Esp. fold (is_special su) in Esp.
+  rewrite Esp in K5, K9.
+  assert (st_is_file (scheme_type_of (su_scheme su)) = false) as Enf by (rewrite file_test_same; exact Ef).
+  assert (scheme_type_of (su_scheme su) = if is_special su then STSpecialNotFile else STNotSpecial) as Est.
+  { rewrite <- Esp. destruct (scheme_type_of (su_scheme su)); [discriminate Enf | reflexivity | reflexivity]. }
+  assert (nfirstn (scheme_end u) (ser u) = su_scheme su) as Esch.
+  { pose proof (co_scheme _ _ _ _ C) as K. destruct (wf_scheme_facts u W) as (_ & _ & Hlt).
+    unfold scheme, u_slice_to in K. rewrite slice_to_o_some in K by lia. injection K as K. exact K. }
+  assert (u_scheme_type u = Some (scheme_type_of (su_scheme su))) as Eust.
+  { unfold u_scheme_type. rewrite (co_scheme _ _ _ _ C). reflexivity. }
+  cbn [model_set]. rewrite (q_set_pathname_arg dbg u v _ Ecb Eust), Esp.
+  unfold spec_step. cbn [setter_of_q]. rewrite (spec_pathname_closed shp su v Hop Ef). change (notnl v) with (ntnl v).
+  set (u0 := Whatwg.set_path su (SPList [])).
+  assert (exists segs rem,
+            parse_path_start dbg CSetter (scheme_type_of (su_scheme su)) true (nfirstn (path_start u) (ser u))
+              (path_arg (is_special su) (has_host u) v)
+            = POk (nfirstn (path_start u) (ser u) ++ flat_map (fun s => 47 :: s) segs, true, rem)
+            /\ pstartO u0 (ntnl v) = Whatwg.set_path u0 (SPList segs)
+            /\ forallb C06_WFI.no_qh (flat_map (fun s => 47 :: s) segs) = true) as (segs & rem & Epp & Espec & HQ).
+  { rewrite Est. destruct (is_special su) eqn:Es.
+    - apply path_text_sp; [exact Hv | reflexivity | exact Es | exact K1 | exact K9].
+    - apply path_text_ns; [exact Hv | reflexivity | exact Es | | exact K1 | | ].
+      + unfold u0. cbn [su_host Whatwg.set_path]. pose proof (co_auth _ _ _ _ C) as K. rewrite Ha in K.
+        destruct (su_host su); [reflexivity | discriminate K].
+      + cbn [negb andb] in K5. exact K5.
+      + cbn [andb] in K9. rewrite orb_false_r in K9. exact K9. }
+  rewrite <- Esch in Epp.
+  rewrite (set_path_fwd dbg u _ _ true rem W Hsl Epp).
+  exists (with_path u (flat_map (fun s => 47 :: s) segs)), (Whatwg.set_path su (SPList segs)).
+  split; [reflexivity|]. split; [rewrite Espec; unfold u0; destruct su; reflexivity|].
+  split; [exact (corr_with_path u su segs C Ha HQ) | exact (sane_set_path su segs S)].
+Qed.
+
+End Records.
